@@ -1,0 +1,23 @@
+//go:build verif
+
+// Contracts for the gocv verifier (comment-only file; see /verif/DESIGN.md §4).
+package server
+
+// The query handler behind the servers (abstract here; EntryHandler.Handle is verified in
+// pkg/server_handler).
+//@ interface Handler.Handle
+//@   log Handle
+//@   params self, ctx, q, meta, packMsgPayload
+//@   modifies *
+
+// One query on a stream connection (C16): the handler is asked to frame the reply itself
+// (PackTCPBuffer: 2-byte length + message in ONE buffer) and that buffer is handed to the
+// connection in exactly one Write — replies of concurrent queries on one connection can therefore
+// not interleave (a TLS or plain TCP connection serialises whole Write calls, not pairs of them);
+// the buffer is released once; a handler that returns nothing closes the connection.
+//@ func ServeTCP$1$1 [C16]
+//@   requires c != nil && h != nil
+//@   modifies *
+//@   ensures calls(Handle) == 1 && arg(Handle, 0, 0) == h && arg(Handle, 0, 2) == req && isfunc(arg(Handle, 0, 4), pool.PackTCPBuffer)
+//@   ensures ret(Handle, 0) == nil ==> calls(Write) == 0 && calls(Close) == 1 && calls(ReleaseBuf) == 0
+//@   ensures ret(Handle, 0) != nil ==> calls(Write) == 1 && arg(Write, 0, 0) == c && arg(Write, 0, 1) == aftercall(Handle, 0, *ret(Handle, 0)) && calls(ReleaseBuf) == 1 && arg(ReleaseBuf, 0, 0) == ret(Handle, 0)
